@@ -176,6 +176,7 @@ func checkC08(c *Ctx) {
 	checkIndexReaders(c)
 	c.rule("ERR-invalidates", "an iterator that stored an error re-decides its validity before returning (invalid for good, accessors never run on missing state)", 3)
 	ea.runErrorInvalidates("ERR-invalidates", nil)
+	ea.runE6Fields("ERR-invalidates", nil)
 	checkTraversalTable(c)
 	checkFastIteratorDomain(c)
 }
